@@ -60,6 +60,7 @@ RULES = {
     "FRONTPIPE": frontend.rule_frontpipe,
     "OBLIG": frontend.rule_oblig,
     "BOUNDFORM": frontend.rule_boundform,
+    "TYPEDISC": frontend.rule_typedisc,
     "WINALIAS@bounds": frontend.rule_winalias_bounds,
     "NAMECONF": simplify.rule_nameconf,
     "DELGUARD": simplify.rule_delguard,
